@@ -122,8 +122,10 @@ type glCtx struct {
 	known      map[string]*glTarget // translated functions of the same group/package by name
 	usesExt    map[string]bool
 	effectDone map[*ast.AssignStmt]bool
-	reach      string   // see glTarget.blockReach
-	deferred   []string // trace entries of deferred effect calls, in the order the defers were executed
+	effectCall *ast.CallExpr // the effect call whose trace entry the enclosing statement has just recorded
+	reach      string        // see glTarget.blockReach
+	resTypes   []string      // Go result types of the function being translated
+	deferred   []string      // trace entries of deferred effect calls, in the order the defers were executed
 }
 
 func (c *glCtx) fail(n ast.Node, f string, a ...interface{}) {
@@ -403,6 +405,11 @@ func (c *glCtx) expr(e ast.Expr) (string, string) {
 		}
 		c.fail(x, "binary %s on (%q, %q)", x.Op, ta, tb)
 	case *ast.CallExpr:
+		if ex, ok := c.t.externs[c.p.str(x.Fun)]; ok && ex.effect != "" && x != c.effectCall {
+			// an effect is only recorded when the call is a statement or the whole right-hand side of an assignment:
+			// anywhere else (a condition, an argument) it would be dropped silently
+			c.fail(x, "effect call %s inside an expression", c.p.str(x.Fun))
+		}
 		terms, tys := c.call(x)
 		if len(tys) != 1 {
 			c.fail(x, "call with %d results used as a value", len(tys))
@@ -875,8 +882,13 @@ func (c *glCtx) stmts(list []ast.Stmt, d int) string {
 		return c.stmts(rest, d)
 	case *ast.ReturnStmt:
 		var parts []string
-		for _, r := range x.Results {
-			t, _ := c.expr(r)
+		for i, r := range x.Results {
+			t, ty := c.expr(r)
+			// a value handed back where the function declares a pointer result (the value came from an external that
+			// is configured to yield the struct itself): the non-nil pointer to it
+			if c.resTypes != nil && i < len(c.resTypes) && strings.HasPrefix(c.resTypes[i], "*") && ty == c.resTypes[i][1:] {
+				t = "(some " + t + ")"
+			}
 			parts = append(parts, t)
 		}
 		val := "()"
@@ -1018,6 +1030,7 @@ func (c *glCtx) assign(x *ast.AssignStmt, rest []ast.Stmt, d int) string {
 		if call, ex, ok := c.effectOf(x.Rhs[0]); ok {
 			// the effect is recorded first, then the call's (parameterised) value is bound; a statement may be
 			// translated several times (once per branch that falls through to it), each time with its effect
+			c.effectCall = call
 			return c.traceUpdate(call, ex, d) + c.assign2(x, rest, d)
 		}
 	}
@@ -1560,6 +1573,7 @@ func (c *glCtx) function(fd *ast.FuncDecl) string {
 	}
 	c.void = fd.Type.Results == nil || len(fd.Type.Results.List) == 0
 	c.nres = len(goResultTypes(c.p, fd.Name.Name))
+	c.resTypes = goResultTypes(c.p, fd.Name.Name)
 	pre := ""
 	if fd.Type.Results != nil {
 		for _, f := range fd.Type.Results.List {
